@@ -238,14 +238,20 @@ fn norm32(v: &[f32]) -> Vec<f32> {
 fn part2(tier: &str) -> Stats {
     let vals: Vec<f32> = if tier == "thorough" { vec![-1.0, -0.5, 0.0, 0.5, 1.0] } else { vec![-1.0, 0.0, 0.5, 1.0] };
     let dim = 40usize;
-    let lat = prune_lattice(dim, &vals);
-    let jobs: Vec<(usize, &str)> = (0..lat.len()).flat_map(|i| ["cosine", "euclidean", "inner_product"].into_iter().map(move |m| (i, m))).collect();
+    let lat_unit = prune_lattice(dim, &vals);
+    // un-normalised magnitudes for the Euclidean metric (nothing normalises those vectors)
+    let vals_big: Vec<f32> = if tier == "thorough" { vec![-2.5, -1.0, 0.0, 0.5, 3.0] } else { vec![-2.5, 0.0, 0.5, 3.0] };
+    let lat_big = prune_lattice(dim, &vals_big);
+    let jobs: Vec<(usize, &str)> = (0..lat_unit.len()).flat_map(|i| ["cosine", "euclidean", "inner_product", "euclidean-big"].into_iter().map(move |m| (i, m))).collect();
     let outs = vcore::par::par_map(&jobs, |_j, (qi, mname)| {
         let mut st = Stats::default();
+        let big = *mname == "euclidean-big";
+        let lat = if big { &lat_big } else { &lat_unit };
+        let mname = if big { &"euclidean" } else { mname };
         let metric = vcore::metric_from(mname);
         let unit = !matches!(metric, DistanceMetric::Euclidean);
         let q = if unit { norm32(&lat[*qi]) } else { lat[*qi].clone() };
-        for vraw in &lat {
+        for vraw in lat.iter() {
             let v = if unit { norm32(vraw) } else { vraw.clone() };
             let d = tdist(metric, &q, &v);
             // worst-cached-distance grid straddling the exact distance
@@ -480,7 +486,7 @@ pub fn run(tier: &str, replay: Option<&str>) -> i32 {
     ev.set("race_epilogue_cache_misses", rt["misses"]);
     ev.set("race_distinct_epilogue_outcomes", routcomes.len() as u64);
     ev.set("distinct_nontrivial", tot.hits_checked + tot.prune_must_remove);
-    ev.set("rule", format!("(1) all 12^{depth} histories per metric x dim {{2,33,40}} x 3 initial states (empty, two populations of three documents at ordered distances from query 0) over searches (two queries, k 1/2, two scopes), inserts/overwrites that move a document, a new closer document, delete, metadata update, bulk load, drain; whenever the path is CacheHit the served list must be a valid fresh top-k of the current reference map (live ids, current distances, right cardinality, no omitted strictly-closer document), judged only where the uncached (ef-override) path is itself exact; (2) for every (query, inserted vector) pair of a {{0,1,32,33}}-supported lattice in dim 40 x metric x five cached-boundary values straddling the exact distance: an entry whose boundary exceeds the exact f64 distance by more than tolerance must be removed by invalidate_for_insert; (3) every ordered (k1,k2) in 1..3 and every ordered scope pair in 0..2 at similarity thresholds {{0,0.5,1}}: an entry stored for k1 never answers k2>k1 and never answers another scope; (3b) every ordered pair of distinct un-normalised query vectors over a 10-value lattice in dim 1 and 2 at threshold 1.0: an entry stored for one is never served for the other; (4) the store-after-invalidate race: one searcher x one or two writers (insert that moves / adds a closer document, delete, metadata update, bulk load, drain) from two populated states, with and without a cached k=1 entry, EVERY schedule with <= 2 (quick) / 3 (thorough) preemptions under ksched; after join the same search is repeated and, if served from the cache, must be a valid fresh top-k of the final collection. non-trivial = cache hits judged + pruning cases where removal is mandatory"));
+    ev.set("rule", format!("(1) all 12^{depth} histories per metric x dim {{2,33,40}} x 3 initial states (empty, two populations of three documents at ordered distances from query 0) over searches (two queries, k 1/2, two scopes), inserts/overwrites that move a document, a new closer document, delete, metadata update, bulk load, drain; whenever the path is CacheHit the served list must be a valid fresh top-k of the current reference map (live ids, current distances, right cardinality, no omitted strictly-closer document), judged only where the uncached (ef-override) path is itself exact; (2) for every (query, inserted vector) pair of a {{0,1,32,33}}-supported lattice in dim 40 (values in [-1,1]; for Euclidean additionally un-normalised magnitudes up to 3) x metric x five cached-boundary values straddling the exact distance: an entry whose boundary exceeds the exact f64 distance by more than tolerance must be removed by invalidate_for_insert; (3) every ordered (k1,k2) in 1..3 and every ordered scope pair in 0..2 at similarity thresholds {{0,0.5,1}}: an entry stored for k1 never answers k2>k1 and never answers another scope; (3b) every ordered pair of distinct un-normalised query vectors over a 10-value lattice in dim 1 and 2 at threshold 1.0: an entry stored for one is never served for the other; (4) the store-after-invalidate race: one searcher x one or two writers (insert that moves / adds a closer document, delete, metadata update, bulk load, drain) from two populated states, with and without a cached k=1 entry, EVERY schedule with <= 2 (quick) / 3 (thorough) preemptions under ksched; after join the same search is repeated and, if served from the cache, must be a valid fresh top-k of the final collection. non-trivial = cache hits judged + pruning cases where removal is mandatory"));
     ev.set("samples", json!([{"part":1,"metric":"cosine","dim":40,"history":alpha.iter().take(5).collect::<Vec<_>>()},{"part":2,"coords":[0,1,32,33]}]));
     ev.set("exhaustive", true);
     ev.set("cache_hits_seen", tot.cache_hits);
